@@ -195,7 +195,31 @@ def cmp_pair(prop, case, impl, model):
                 out.append(('disagree', 'pair:wire-bytes:' + d, 'model wire differs from the tapped wire'))
     return out
 
+def _cmp_fields(suite, fields, sigmap):
+    def f(prop, case, impl, model):
+        if 'PANIC' in impl:
+            return [('violation', suite + ':panic', 'the library panicked: ' + impl['PANIC'][:300])]
+        if 'modelerror' in model:
+            return [('disagree', suite + ':modelerror', model['modelerror'][:300])]
+        out = []
+        for fld in fields:
+            if impl.get(fld) != model.get(fld):
+                out.append(('violation', '%s:%s' % (suite, sigmap.get(fld, fld)), '%s: library %s, specification %s' % (fld, str(impl.get(fld))[:160], str(model.get(fld))[:160])))
+                break
+        return out
+    return f
+
+cmp_hs_accept = _cmp_fields('hs-accept', ['status', 'hijacked', 'accept', 'proto', 'connproto', 'ext', 'co'], {})
+def cmp_hs_dial(prop, case, impl, model):
+    if impl.get('ok') == '2':
+        return [('violation', 'hs-dial:conn-with-error', 'Dial returned an error AND a connection')]
+    if impl.get('keyok') != '1':
+        return [('violation', 'hs-dial:key', 'the Sec-WebSocket-Key sent is not one base64 value of 16 bytes')]
+    return _cmp_fields('hs-dial', ['ok', 'subproto', 'co', 'method', 'host', 'req'], {})(prop, case, impl, model)
+
 COMPARE = {
+    'hs-accept': cmp_hs_accept,
+    'hs-dial': cmp_hs_dial,
     'pair': cmp_pair,
     'close': cmp_close,
     'wire-in': cmp_wirein,
@@ -211,7 +235,7 @@ def nontrivial(suite, case, impl):
         return n >= 4
     if suite == 'wire-in':
         return case.get('ops', '').count('R') > 1 and len(case.get('stream', '')) > 16
-    if suite == 'pair':
+    if suite in ('pair', 'hs-accept', 'hs-dial'):
         return True
     if suite == 'wire-out':
         return int(impl.get('n', '0') or 0) > 200 or '|' in case.get('prog', '')
@@ -233,6 +257,11 @@ WIREIN_RULE = ('wire-in suite: seeded peer byte streams = 1-4 messages (plain / 
 READER_TRUST = ['Reader model hand-written from read.go / frame.go / close.go; tie = every observation (message types, delivered bytes, where and how reading fails, '
                 'Pongs and Close frames written) equals the extracted model\'s on the same byte stream, chunking and ending',
                 'bufio.Reader / io.ReadFull deliver the concatenation of what arrives independent of chunking (assumed; every case is run with a scripted chunking)']
+
+HS_TRUST = ['Handshake model hand-written from accept.go / dial.go / compress.go; the Go standard library functions it depends on are re-implemented in Gallina and were validated '
+            'differentially against Go 1.23.5: url.Parse host extraction (861k cases), filepath.Match (569k), strings.EqualFold/ToLower on the documented domain, base64.StdEncoding (1.2k), SHA-1',
+            'net/http delivers canonical header keys; header values may contain ASCII white space only; non-ASCII cased runes other than U+212A / U+017F are outside the EqualFold model',
+            'the SecWebSocketKey is crypto/rand input: the model reasons about the relation between key and accept value only']
 
 PROPS = {
     'C06': dict(
@@ -263,6 +292,53 @@ PROPS = {
                    'model delivery = library delivery on every case; judge: received = written.',
         level_note='partial: the end-to-end theorem Reader(Writer(prog)) = messages (C01_roundtrip) is not yet proved; it is checked case by case by running the extracted Writer∘Reader composition.',
         technique='Coq proofs (induction over chunk lists / buffer loop) + differential run of extracted Writer∘Reader vs two library endpoints',
+    ),
+    'C11': dict(
+        suites=['hs-accept'],
+        rule='hs-accept suite: the real Accept on synthetic requests with a recording ResponseWriter/Hijacker: method x HTTP version x Connection/Upgrade token lists (case, several tokens, several '
+             'header lines, empty tokens, U+017F) x version values x key variants (missing, duplicated, 15/16/17 bytes, non-base64, missing padding, spaces, newline inside) x offered x supported '
+             'subprotocols x extension offers x origins x pattern sets x modes, mostly-valid with 1-2 mutated fields plus fully random; plus the origin x pattern grid and the offer x mode grid. '
+             'non-trivial = every case; distinct = distinct case line',
+        trusted=COMMON_TRUSTED + HS_TRUST, assumptions=['HTTP parsing and the hijack mechanics of net/http are outside the model (pipelined frames after the request are not covered by this check)'],
+        not_covered=['pipelined client frames through a real net/http server'],
+        level_text='Theorems: Accept answers 101 iff the request is a valid WebSocket upgrade (declarative predicate) with an authorised origin; otherwise 426/405/400/403 and nothing negotiated; the accept value is '
+                   'base64(SHA-1(key ++ GUID)) with Gallina SHA-1 and base64 (RFC vectors by vm_compute, base64 round trip proved); subprotocol = first server-preferred protocol offered. '
+                   'Tie: status / hijack / response headers / negotiated options equal the model\'s on every generated request.',
+        level_note='decision procedure fully modelled; net/http request parsing not modelled.',
+        technique='Coq proofs over a Gallina model of accept.go (+ Gallina SHA-1/base64) + differential run through the real Accept',
+    ),
+    'C12': dict(
+        suites=['hs-accept'],
+        rule='hs-accept suite (see C11) incl. the full grid of 43 origins (scheme / userinfo tricks / ports / suffix, prefix and sub-domain look-alikes / path, query, fragment containing the host / null / '
+             'schemeless / mixed case / escapes / IPv6 / control bytes) x 17 pattern sets (wildcards, classes, malformed patterns in every position) against a valid request. non-trivial = every case',
+        trusted=COMMON_TRUSTED + HS_TRUST, assumptions=['url.Parse and filepath.Match are modelled for Go 1.23.5 (validated, not derived)'],
+        level_text='Theorems: the origin decision as an iff over the parsed host, the host comparison and the ordered pattern list; absent origin allowed; refused => 403 with nothing taken over; the parsed host never '
+                   'contains / ? # @ (path, query, fragment, userinfo cannot supply it); a literal pattern authorises exactly itself.',
+        level_note='Gallina re-implementations of url.Parse (host) and filepath.Match, proved properties + differential validation; EqualFold restricted as documented.',
+        technique='Coq proofs over Gallina models of url.Parse/filepath.Match/authenticateOrigin + differential run through the real Accept',
+    ),
+    'C13': dict(
+        suites=['hs-dial'],
+        rule='hs-dial suite: the real Dial with a scripted RoundTripper: status codes x Connection/Upgrade values x accept-key variants (correct, for another key, missing, upper-cased, empty, doubled) x '
+             'subprotocol values x requested lists x extension responses x 3 client modes x caller headers (incl. attempts to override the reserved ones) x Host override; the request Dial built is inspected. '
+             'non-trivial = every case',
+        trusted=COMMON_TRUSTED + HS_TRUST, assumptions=['"fresh random key per attempt" is crypto/rand: the harness checks one base64 value of 16 bytes per dial (a test of the wiring, not of randomness)', 'http.Client redirect/proxy behaviour is outside the model'],
+        level_text='Theorems: the request carries exactly the mandated header values (and the joined subprotocols / the extension offer of the mode); a connection is returned iff status 101, upgrade tokens, '
+                   'the accept value for the key sent, an asked-for subprotocol (or none) and honourable extensions. Tie: result, subprotocol, negotiated options and the full request header set equal the model\'s.',
+        level_note='decision fully modelled; "no connection on error" is observed (ok=2 never) not proved (it is about Go return values).',
+        technique='Coq proofs over a Gallina model of dial.go + differential run through the real Dial',
+    ),
+    'C14': dict(
+        suites=['hs-accept', 'hs-dial', 'pair'],
+        rule='hs-accept (all extension-offer lists up to 3 offers from a 29-offer grammar incl. window-bits with/without values 7,8,15,16,abc,empty,08, duplicates, unknown parameters, other extensions, '
+             'case/spacing variants x 3 modes), hs-dial (22 responses x 3 modes) and the pair suite (every successful library-library handshake is followed by a multi-message compressed exchange in both '
+             'directions). non-trivial = every case',
+        trusted=COMMON_TRUSTED + HS_TRUST + [FLATE_ASSUME], assumptions=[FLATE_ASSUME],
+        level_text='Theorems: the server accepts only the first acceptable offer (no duplicates, only honourable parameters), falls back otherwise, echoes server_no_context_takeover when asked, renders a response '
+                   'with nothing but the agreed flags; the client accepts only what it can honour and follows the RESPONSE for the server direction; library-library agreement for all 3x3 modes; per-direction '
+                   'compatibility with a foreign endpoint that applies the response; sender and receiver consult the same flag.',
+        level_note='data exchange correctness under the agreed parameters is C01-C03 (flate oracle).',
+        technique='Coq proofs over a Gallina model of the negotiation (finite mode grid by computation, offers by induction) + differential runs through Accept/Dial + end-to-end exchanges',
     ),
     'C16': dict(
         suites=['close', 'wire-out'],
